@@ -117,7 +117,15 @@ def w4_pending_stores_waker(R, E, F, fn, paths, rule, own_filter=None):
                 continue
             n += 1
             v = E.read(_StoreView(path.store), root + ('data', 'task'))
-            if v == some(('curwaker',)):
+            same_task = False
+            if v == ('init', root + ('data', 'task')):
+                # untouched slot: fine when the path has established that the stored waker wakes the current task
+                inner0 = E.project(v, (('dc', 'Some'), '0'))
+                for k, f in path.facts.items():
+                    if isinstance(k, tuple) and k and k[0] == 'will_wake' and f == ('eq', 1) and \
+                            (k[1] == inner0 or k[1] == v or contains(k[1], inner0)):
+                        same_task = True
+            if v == some(('curwaker',)) or same_task:
                 R.ok(rule, '%s|%s' % (fn['path'], path_cond(E, path)),
                      {'function': fn['path'], 'path_condition': path_cond(E, path), 'task_at_return': fmt_val(v)})
             else:
@@ -172,6 +180,24 @@ def scan_field_writes(F, field, in_module=None):
                 if p and isinstance(p[-1], dict) and p[-1].get('f') == field:
                     out.append((fn, s))
     return out
+
+
+def const_of_rvalue(fn, rv, depth=0):
+    """the integer constant an assigned rvalue denotes, following copies through single-assignment locals
+    (`let t = true; x.f = t;`); None when it is not a constant"""
+    if 'use' not in rv or depth > 4:
+        return None
+    u = rv['use']
+    if 'int' in u:
+        return u['int']
+    src = u.get('copy') or u.get('move')
+    if not src or src.get('p'):
+        return None
+    defs = [s2 for b in fn['blocks'] for s2 in b['stmts']
+            if s2['k'] == 'assign' and s2['place']['l'] == src['l'] and not s2['place']['p']]
+    if len(defs) != 1:
+        return None
+    return const_of_rvalue(fn, defs[0]['rv'], depth + 1)
 
 
 def scan_calls(F, pred):
@@ -245,6 +271,48 @@ def cmp_fact(E, facts, op, a, b):
         if k is not None:
             return (1 - k) if neg else k
     return None
+
+
+def eq_fact(E, facts, a, b):
+    """truth of `a == b` under the path facts in any spelling (Eq / Ne, either operand order): 1 / 0 / None"""
+    from rl import const_of
+    for key, neg in ((('bin', 'Eq', a, b), 0), (('bin', 'Eq', b, a), 0), (('bin', 'Ne', a, b), 1), (('bin', 'Ne', b, a), 1)):
+        c = const_of(E, facts, key)
+        if c is not None:
+            return c ^ neg
+    return None
+
+
+def norm_pred(e):
+    """canonical spelling of a boolean comparison expression, so that `a != b`, `!(a == b)`, `b != a`, and
+    `a < b`, `b > a`, `!(a >= b)`, `!(b <= a)` (total orders) compare equal"""
+    neg = False
+    while isinstance(e, tuple) and len(e) == 3 and e[0] == 'un' and e[1] == 'Not':
+        neg = not neg
+        e = e[2]
+    if not (isinstance(e, tuple) and len(e) == 4 and e[0] == 'bin' and e[1] in ('Eq', 'Ne', 'Lt', 'Le', 'Gt', 'Ge')):
+        return ('un', 'Not', e) if neg else e
+    op, a, b = e[1], e[2], e[3]
+    if op == 'Gt':
+        op, a, b = 'Lt', b, a
+    elif op == 'Ge':
+        op, a, b = 'Le', b, a
+    if neg:
+        if op == 'Eq':
+            op = 'Ne'
+        elif op == 'Ne':
+            op = 'Eq'
+        elif op == 'Lt':     # !(a < b) == b <= a
+            op, a, b = 'Le', b, a
+        elif op == 'Le':     # !(a <= b) == b < a
+            op, a, b = 'Lt', b, a
+    if op in ('Eq', 'Ne') and repr(a) > repr(b):
+        a, b = b, a
+    return ('bin', op, a, b)
+
+
+def same_pred(x, y):
+    return norm_pred(x) == norm_pred(y)
 
 
 # ------------------------------------------------------------ thin wrappers
@@ -468,13 +536,19 @@ def sem_fair_J(E, F, wk, run):
 
 
 # ---------------------------------------------------------------------- fair: no re-queue
-def fair_no_requeue(R, E, F, m, paths, owns, rule, what, excluded=None):
-    """a queued waiter of a fair primitive never changes its place: on a path that can be fair, the own node is
-    put into the queue only when it entered the transition in state New.  `excluded(path, root)` may name the
-    invariant that makes the path infeasible (checked by the caller).  returns the number of enqueue instances"""
+def entered_unqueued(path, root, initial):
+    """did the own node enter the transition in its initial (never queued) state?"""
+    return path.facts.get(('discr', ('init', root + ('data', 'state')))) == ('eq', initial)
+
+
+def fair_no_requeue(R, E, F, m, paths, owns, rule, what, excluded=None, initial='New', fair_only=True,
+                    unlinked=None):
+    """a queued waiter of a FIFO primitive never changes its place: (fair_only: on a path that can be fair) the own
+    node is put into the queue only when it entered the transition in its initial state.  `excluded(path, root)` may
+    name the invariant that makes the path infeasible (checked by the caller).  returns the number of enqueues"""
     n = 0
     for path in paths:
-        if path.exit != 'return' or const_of(E, path.facts, ('init', (('P', 'self'), 'is_fair'))) == 0:
+        if path.exit != 'return' or (fair_only and const_of(E, path.facts, ('init', (('P', 'self'), 'is_fair'))) == 0):
             continue
         for e in path.events:
             if not (e['k'] == 'qop' and e['op'] in ('add_front', 'add_back', 'insert') and e.get('node')
@@ -484,13 +558,14 @@ def fair_no_requeue(R, E, F, m, paths, owns, rule, what, excluded=None):
             root = e['node'][:1]
             k0 = path.facts.get(('discr', ('init', root + ('data', 'state'))))
             why = excluded(path, root) if excluded else None
-            if k0 == ('eq', 'New'):
-                R.ok(rule, '%s|enqueue of a New node|%s' % (m['path'], path_cond(E, path)))
+            allowed = unlinked or (initial,)
+            if k0 and k0[0] == 'eq' and k0[1] in allowed:
+                R.ok(rule, '%s|enqueue of a %s node|%s' % (m['path'], k0[1], path_cond(E, path)))
             elif why:
                 R.ok(rule, '%s|re-queue path excluded: %s|%s' % (m['path'], why, path_cond(E, path)))
             else:
-                R.fail(rule, [m['path'], 'fair-requeue', path_cond(E, path)],
-                       '%s puts its own node into the queue on a path that can be a fair %s and on which the node '
-                       'did not enter in state New: a waiter that was already queued moves behind later arrivals '
+                R.fail(rule, [m['path'], 'queued-waiter-requeued', path_cond(E, path)],
+                       '%s puts its own node into the queue on a path that can be a FIFO-serving %s and on which the '
+                       'node did not enter in its initial state: a waiter that was already queued moves behind later arrivals '
                        '[%s]' % (m['path'], what, path_cond(E, path)), where(F, e), {'trace': trace_summary(path)})
     return n
